@@ -1,5 +1,6 @@
 SPECIFICATION Spec
 CONSTANTS
+  MintLower = "MINT"
   Accounts <- AllAccounts
   Thorough = FALSE
 
